@@ -139,7 +139,9 @@ def step (s : St) (op : List String) (impl : String) : LineOut St :=
     | some nm, some id =>
       let e : Ev := { kind := k, name := nm, id := id }
       let s1 := pickUp { s with es := esStep s.fs chanCap s.es (.arrive e), fed := s.fed ++ [e] }
-      { state := s1, model := some s!"buf={s1.es.buf.length} fl={s1.held}" }
+      { state := s1, model := some s!"buf={s1.es.buf.length} fl={s1.held}",
+        monitor := if impl.startsWith "TIMEOUT" && specWanted s.filter e then
+            some ("stream-missing", s!"an event matching the filter never reached the client of an idle stream: {impl}") else none }
     | _, _ => { state := s, model := some "bad-op" }
   | ["rel", k] =>
     match k.toNat? with
@@ -177,8 +179,10 @@ def step (s : St) (op : List String) (impl : String) : LineOut St :=
         | some rs => if rs.any (·.seq != sq) then some ("stream-seq", s!"a record does not carry the stream's seq {sq}: {impl}")
                      else if rs.any (fun r => !specWanted (fl ++ ",user:fin") { kind := "user", name := r.name }) then
                        some ("stream-filter", s!"a record does not match the filter: {impl}")
+                     else if rs.map (·.name) != (ns.filter fun n => specWanted (fl ++ ",user:fin") { kind := "user", name := n }) then
+                       some ("stream-missing", s!"the records are not exactly the matching events in order: {impl}")
                      else none
-        | none => some ("malformed", impl)
+        | none => if impl.startsWith "TIMEOUT" then some ("stream-missing", impl) else some ("malformed", impl)
       { state := { s with filter := fl }, model := some expect, monitor := bad }
     | _, _, _ => { state := s, model := some "bad-op" }
   | ["e2eother"] =>
